@@ -350,13 +350,30 @@ static void Array_Push_At(var self, var obj, var key) {
   
   a->nitems++;
   Array_Reserve_More(a);
+  a->nitems--;
   
-  memmove((char*)a->data + Array_Step(a) * (i+1),
-          (char*)a->data + Array_Step(a) * (i+0), 
-          Array_Step(a) * ((a->nitems-1) - i));
+  /* Build the element in the spare slot past the end, so that a failing
+  ** assign leaves the array as it was, then move it into position. */
   
-  Array_Alloc(self, i);
-  assign(Array_Item(a, i), obj);
+  Array_Alloc(a, a->nitems);
+  assign(Array_Item(a, a->nitems), obj);
+  a->nitems++;
+  
+  if ((size_t)i < a->nitems-1) {
+    char* item = malloc(Array_Step(a));
+#if CELLO_MEMORY_CHECK == 1
+    if (item is NULL) {
+      throw(OutOfMemoryError, "Cannot grow Array, out of memory!");
+    }
+#endif
+    memcpy(item, (char*)a->data + Array_Step(a) * (a->nitems-1), Array_Step(a));
+    memmove((char*)a->data + Array_Step(a) * (i+1),
+            (char*)a->data + Array_Step(a) * (i+0), 
+            Array_Step(a) * ((a->nitems-1) - i));
+    memcpy((char*)a->data + Array_Step(a) * i, item, Array_Step(a));
+    free(item);
+  }
+  
 }
 
 static void Array_Pop(var self) {
